@@ -116,13 +116,29 @@ def _equality_guard(f, inl):
                 if not cmp_args:
                     continue
                 a, b = cmp_args
-                if any(isinstance(x, ast.Attribute) and x.attr in ('shape', 'size') for y in (a, b) for x in ast.walk(y)):
+                if any(isinstance(x, ast.Attribute) and x.attr in ('shape', 'size') for y in (a, b) for x in _walk_values(y)):
                     continue
-                if any(isinstance(x, ast.Call) and _leaf(x.func) in ('sum', 'count_nonzero', 'len') for y in (a, b) for x in ast.walk(y)):
+                if any(isinstance(x, ast.Call) and _leaf(x.func) in ('sum', 'count_nonzero', 'len') for y in (a, b) for x in _walk_values(y)):
                     continue
                 if (_isnan_of(a, 'SRC0') and _isnan_of(b, 'SRC1')) or (_isnan_of(a, 'SRC1') and _isnan_of(b, 'SRC0')):
                     return ast.unparse(n)[:90]
     return None
+
+
+def _walk_values(e):
+    """like ast.walk, but does not descend into the TEST of a conditional expression: `x.reshape(1, -1) if len(x.shape) == 1 else x`
+    is a value that happens to be chosen by a shape test, not a shape"""
+    todo = [e]
+    while todo:
+        n = todo.pop()
+        yield n
+        for fld, ch in ast.iter_fields(n):
+            if isinstance(n, ast.IfExp) and fld == 'test':
+                continue
+            if isinstance(ch, list):
+                todo += [c for c in ch if isinstance(c, ast.AST)]
+            elif isinstance(ch, ast.AST):
+                todo.append(ch)
 
 
 def _is_indexed(root, attr_node) -> bool:
@@ -360,7 +376,7 @@ def row_coverage(ctx, obs, q, params, rule='MASK-rows'):
                 args = [n.left, n.comparators[0]]
             if not args:
                 continue
-            if any(isinstance(x, ast.Attribute) and x.attr in ('shape', 'size') for y in args for x in ast.walk(y)):
+            if any(isinstance(x, ast.Attribute) and x.attr in ('shape', 'size') for y in args for x in _walk_values(y)):
                 continue
             for k in (0, 1):
                 src = f'SRC{k}'
